@@ -122,7 +122,8 @@ def build():
     S = D1 + 2 * N1
     M = D1 + D2 / 2
     K = N2 + 2 * N3
-    funcs = [D1, D2, N1, N2, N3, S, M, K]
+    Zc = (D1 + N1) - N1               # a composite with a cancelled leaf (stored weights {D1: 1, N1: 0})
+    funcs = [D1, D2, N1, N2, N3, S, M, K, Zc]
     x0, x1 = Point(), Point()
     return pep, funcs, x0, x1
 
